@@ -86,5 +86,6 @@ Next == \E tx \in AuthTxs \cup EnvTxs : IF OnlyOk THEN StepOk(tx) ELSE Step(tx)
 
 Bound == g.steps <= MaxSteps
 View == w
+HuntBound == TRUE
 EmitTrace == TLCGet("level") # EmitLen \/ PrintT(<<"TRACE", ToJson([i \in 1..Len(Trace) |-> [w |-> Trace[i].w, ev |-> Trace[i].ev, obs |-> Trace[i].obs]])>>)
 =============================================================================
